@@ -163,6 +163,7 @@ GROUPS = {
     'p06': ('k05', 'k06'), 'p07': ('k05', 'k10'), 'p08': ('k03', 'k07'), 'p09': ('k03', 'k08'), 'p10': ('k03', 'k09'),
     'p11': ('k01', 'k11'), 'p12': ('k03', 'k12'), 'p13': ('k12', 'k06'), 'p14': ('k01', 'k03', 'k02'),
     'p15': ('k03', 'k09', 'k03'), 'p16': ('k05', 'k13'), 'p17': ('k14', 'k11', 'k02'), 'p18': ('w02', 'w03'),
+    'p19': ('w01', 'k03'), 'p20': ('k03', 'k08', 'w08'),
 }
 
 # reprojected ("geo") world: real-world coordinates, relations established by the oracle
@@ -196,15 +197,16 @@ def with_singletons(sources, groups):
 # ---------------------------------------------------------------------------------------------
 def lattice_geos(tier):
     """<<x0, y0, w, h, rx, ry>>: bbox = x0, y0, x0 + w rx, y0 + h ry; size = w, h"""
-    xs = [-80, 0, 93, 100, 127, 260, 417, 500, 560]
-    ys = [-40, 60, 91, 250, 417, 430]
+    thorough = tier == 'thorough'
+    xs = [-80, 0, 93, 100, 127, 260, 417, 500, 560] if thorough else [-80, 93, 100, 260, 417, 500, 560]
+    ys = [-40, 60, 91, 250, 417, 430] if thorough else [-40, 60, 91, 250, 417]
     geos = set()
     for rx in (10, 20, 40, 80):
         for x in xs:
             for y in ys:
                 geos.add((x, y, 4, 4, rx, rx))
-    for x in (-80, 93, 260, 417):
-        for y in (-40, 91, 417):
+    for x in ((-80, 93, 260, 417) if thorough else (-80, 260, 417)):
+        for y in ((-40, 91, 417) if thorough else (-40, 417)):
             geos.add((x, y, 7, 5, 20, 20))
             geos.add((x, y, 5, 7, 40, 40))
             geos.add((x, y, 4, 4, 40, 20))      # non-square pixels: the `or` of the resolution gate
@@ -216,7 +218,7 @@ def lattice_geos(tier):
     for g in [(20, 100, 4, 4, 20, 20), (60, 100, 4, 4, 20, 20), (99, 100, 4, 4, 80, 80), (495, 100, 4, 4, 40, 40),
               (120, 415, 4, 4, 40, 40), (120, 20, 4, 4, 10, 10), (85, 75, 4, 4, 5, 5), (-280, -280, 4, 4, 80, 80)]:
         geos.add(g)
-    if tier == 'thorough':
+    if thorough:
         for rx in (10, 20, 40, 80):
             for x in range(-80, 600, 37):
                 for y in range(-60, 460, 53):
@@ -256,7 +258,7 @@ def tile_geos(tier):
         for r in ress:
             nx = -(-W // (r * ts[0]))
             ny = -(-H // (r * ts[1]))
-            lim = 6 if tier != 'thorough' else 12
+            lim = 3 if tier != 'thorough' else 12
             for x in list(range(min(nx, lim))) + [nx - 1, nx]:
                 for y in list(range(min(ny, lim))) + [ny - 1, ny]:
                     geos.add((bbox[0] + x * r * ts[0], bbox[1] + y * r * ts[1], ts[0], ts[1], r, r))
@@ -288,10 +290,12 @@ def universe(tier, sources, groups):
     call = [
         '{<<s, XQ(g, srs, "png", {"time", "dim_x", "foo"})>> : s \\in %s, g \\in %s, srs \\in {"%s", "%s"}}' % (
             tla_set(lat_wms), tla_set(lattice_geos(tier)), M, A),
-        '{<<s, XQ(g, srs, f, d)>> : s \\in %s, g \\in %s, srs \\in {"%s", "%s"}, f \\in {"png", "jpeg", "gif"}, d \\in %s}' % (
-            tla_set(lat_wms), tla_set(small_geos()), M, A, tla_set(dimsets)),
-        '{<<s, XQ(g, srs, "png", {})>> : s \\in %s, g \\in %s, srs \\in {"%s", "%s", "EPSG:4326"}}' % (
-            tla_set(tiles), tla_set(tile_geos(tier)), M, A),
+        '{<<s, XQ(g, srs, f, d)>> : s \\in %s, g \\in %s, srs \\in {"%s", "%s"}, f \\in %s, d \\in %s}' % (
+            tla_set(lat_wms), tla_set(small_geos()), M, A, tla_set(['png', 'jpeg', 'gif'] if tier == 'thorough' else ['png', 'jpeg']),
+            tla_set(dimsets if tier == 'thorough' else dimsets[:4])),
+        '{<<s, XQ(g, "%s", "png", {})>> : s \\in %s, g \\in %s}' % (M, tla_set(tiles), tla_set(tile_geos(tier))),
+        '{<<s, XQ(g, srs, "png", {"time"})>> : s \\in %s, g \\in %s, srs \\in {"%s", "EPSG:4326"}}' % (
+            tla_set(tiles), tla_set(tile_geos(tier)[::(3 if tier == 'thorough' else 7)]), A),
         '{<<s, IQ(srs, cr, rr, f, d)>> : s \\in %s, srs \\in %s, cr \\in {"inside", "partial", "disjoint"}, '
         'rr \\in {"in", "out"}, f \\in {"png", "jpeg"}, d \\in {{}, {"time", "elevation", "foo"}}}' % (
             tla_set(geo_cov), tla_set(geo_srs)),
@@ -304,11 +308,11 @@ def universe(tier, sources, groups):
     singles = [n for n in names if n.startswith('sk') or n.startswith('sw')]
     seqs = [(n,) for n in names if not n.startswith('sg')]
     seqs += [('sk03', 'sk01'), ('sk01', 'sk02'), ('p01', 'sk03'), ('sk03', 'p02'), ('sk12', 'sk06'), ('sw02', 'sk05'),
-             ('sk04', 'sk03'), ('sk11', 'p01'), ('sw05', 'sw07'), ('sk03', 'sk09', 'sk03'), ('sk02', 'sk14', 'sk01')]
+             ('sk04', 'sk03'), ('sk11', 'p01'), ('sw05', 'sw07'), ('sk03', 'sk09', 'sk12'), ('sk02', 'sk14', 'sk01')]
     gseqs = [('s' + g,) for g in geo]
     mp = [
         '{<<l, XQ(g, srs, "png", d)>> : l \\in %s, g \\in %s, srs \\in {"%s", "%s"}, d \\in %s}' % (
-            tla_set(seqs), tla_set(map_geos()), M, A, tla_set([set(), {'time', 'foo'}, {'elevation', 'dim_x', 'bar'}])),
+            tla_set(seqs), tla_set(map_geos() if tier == 'thorough' else map_geos()[:8]), M, A, tla_set([set(), {'time', 'foo'}, {'elevation', 'dim_x', 'bar'}])),
         '{<<l, IQ(srs, cr, rr, "png", d)>> : l \\in %s, srs \\in {"EPSG:4326", "%s", "EPSG:25832"}, '
         'cr \\in {"inside", "partial", "disjoint"}, rr \\in {"in", "out"}, d \\in {{}, {"time", "foo"}}}' % (
             tla_set([('s' + g,) for g in geo_cov]), M),
@@ -332,6 +336,7 @@ def model_consts(sources, groups, flags, call_cases, map_cases):
         'CombineChecksRes': bool(flags['CombineChecksRes']),
         'BestSrsFromList': bool(flags['BestSrsFromList']),
         'CombineChecksCodes': bool(flags['CombineChecksCodes']),
+        'MissingSrsListCrashes': bool(flags.get('MissingSrsListCrashes', True)),
         'MapCases': map_cases,
         'CallCases': call_cases,
     }
@@ -345,7 +350,7 @@ TABLE_DEF = (
     '    \\o [i \\in DOMAIN MapCases |-> {[kind |-> "map", s |-> "", l |-> mc[1], q |-> mc[2], plan |-> PlanMap(mc[1], mc[2])] : mc \\in MapCases[i]}]\n')
 
 
-def run_model(ctx, name, consts, invariants, export=None, timeout=900, workers=16):
+def run_model(ctx, name, consts, invariants, export=None, timeout=900, workers=8, coverage=False):
     d = ctx.sub('mc-' + name)
     extra = ''
     extends = []
@@ -354,6 +359,1195 @@ def run_model(ctx, name, consts, invariants, export=None, timeout=900, workers=1
         extra = TABLE_DEF + 'ASSUME JsonSerialize("%s", [cases |-> Table])' % export
     mp, cp = tlc.write_mc(d, 'Source', 'MC_' + re.sub(r'\W', '_', name), consts, invariants=list(invariants),
                           extra_defs=extra, extends=extends)
-    r = tlc.run(mp, cp, d, timeout=timeout, workers=workers)
+    r = tlc.run(mp, cp, d, timeout=timeout, workers=workers, coverage=coverage)
     ctx.log('TLC %s: %r' % (name, r))
     return r
+
+
+# ---------------------------------------------------------------------------------------------
+# the real code, instrumented at its boundary to the upstream servers
+# ---------------------------------------------------------------------------------------------
+_PNG = {}
+
+
+def _png(size):
+    size = (max(1, int(size[0])), max(1, int(size[1])))
+    if size not in _PNG:
+        from PIL import Image
+        b = io.BytesIO()
+        Image.new('RGBA', size, (255, 0, 0, 255)).save(b, 'png')
+        _PNG[size] = b.getvalue()
+    return _PNG[size]
+
+
+class _Resp(io.BytesIO):
+    pass
+
+
+def parse_url(url):
+    """an upstream URL -> the request as the model describes it (plus the raw numbers)"""
+    u = urlsplit(url)
+    m = re.match(r'^/(-?\d+)/(-?\d+)/(-?\d+)\.png$', u.path)
+    if m and not u.query:
+        return {'kind': 'tile', 'host': u.netloc, 'tile': [int(m.group(2)), int(m.group(3)), int(m.group(1))],
+                'layers': [], 'srs': '', 'fmt': '', 'bbox': None, 'size': None, 'dims': {}}
+    q = {}
+    for k, v in parse_qsl(u.query, keep_blank_values=True):
+        q.setdefault(k.lower(), []).append(v)
+    one = {k: v[-1] for k, v in q.items()}
+    try:
+        bbox = [float(x) for x in one.get('bbox', '').split(',')]
+        size = [int(one.get('width', '0')), int(one.get('height', '0'))]
+    except ValueError:
+        bbox, size = None, None
+    fmt = one.get('format', '')
+    fmt = fmt.split('/', 1)[1] if '/' in fmt else fmt
+    dims = {k: v for k, v in q.items() if k not in WMS_KEYS}
+    return {'kind': 'map' if one.get('request', '').lower() == 'getmap' and u.path == '/service' else 'other:' + url,
+            'host': u.netloc, 'layers': [x for x in one.get('layers', '').split(',') if x],
+            'srs': one.get('srs', one.get('crs', '')), 'fmt': fmt.split(';')[0], 'bbox': bbox, 'size': size,
+            'dims': dims, 'tile': [0, 0, 0]}
+
+
+class World(object):
+    """One MapProxy configuration holding every source of the catalogue, each WMS layer group, and caches in
+    front of some sources.  HTTPClient.open is replaced by a recorder that answers with an image of the size
+    asked for."""
+
+    def __init__(self, workdir, sources, groups, caches=None, service_srs=None):
+        import mapproxy.client.http as H
+        lg = logging.getLogger('mapproxy')
+        if not any(isinstance(h, logging.NullHandler) for h in lg.handlers):
+            lg.addHandler(logging.NullHandler())
+        lg.propagate = False
+        self.dir = workdir
+        self.sources = {c.sid: c for c in sources}
+        self.groups = groups
+        self.caches = caches or {}
+        self.service_srs = service_srs or [M, A, 'EPSG:4326', 'EPSG:25832', 'EPSG:31467']
+        self.urls = []
+        self.hook = None            # called with every upstream URL (trace recording)
+        self.tile_size = {c.host: tuple(c.grid['ts']) for c in sources if c.kind == 'tile'}
+        self._H = H
+        self._orig_open = H.HTTPClient.open
+        world = self
+
+        def fake_open(client, url, data=None, method=None):
+            world.urls.append(url)
+            if world.hook:
+                world.hook(url)
+            u = parse_url(url)
+            size = world.tile_size.get(u['host'], (4, 4)) if u['kind'] == 'tile' else (u['size'] or (4, 4))
+            r = _Resp(_png(size))
+            r.headers = {'Content-type': 'image/png'}
+            r.code = 200
+            return r
+        H.HTTPClient.open = fake_open
+        try:
+            from mapproxy.config.loader import ProxyConfiguration
+            self.pc = ProxyConfiguration(self.conf(), conf_base_dir=workdir, seed=False, renderd=False)
+            self._objs = {}
+            self._app = None
+        except Exception:
+            self.close()
+            raise
+
+    def close(self):
+        self._H.HTTPClient.open = self._orig_open
+        shutil.rmtree(self.dir, ignore_errors=True)
+
+    def conf(self):
+        d = self.dir
+        grids, sources, layers, caches = {}, {}, [], {}
+        for c in self.sources.values():
+            if c.base != c.sid:
+                continue
+            gname = None
+            if c.kind == 'tile':
+                gname = 'grid_' + c.sid
+                g = c.grid
+                grids[gname] = {'srs': g['srs'], 'bbox': list(g['bbox']), 'res': list(g['res']),
+                                'tile_size': list(g['ts']), 'origin': 'ul' if g['ul'] else 'll'}
+            sources[c.sid] = c.conf(gname)
+        for name, members in sorted(self.groups.items()):
+            layers.append({'name': name, 'title': name, 'sources': list(members)})
+        for name, cc in sorted(self.caches.items()):
+            gname = 'cgrid_' + name
+            grids[gname] = {'srs': cc['srs'], 'bbox': list(cc['bbox']), 'res': list(cc['res']),
+                            'tile_size': list(cc['ts']), 'origin': 'ul' if cc.get('ul') else 'll'}
+            caches[name] = {'grids': [gname], 'sources': [cc['source']], 'meta_size': list(cc.get('meta', (1, 1))),
+                            'meta_buffer': cc.get('buffer', 0), 'format': 'image/png',
+                            'cache': {'type': 'file', 'directory_layout': 'tms',
+                                      'directory': os.path.join(d, 'cache', name)}}
+            layers.append({'name': name, 'title': name, 'sources': [name]})
+        conf = {
+            'globals': {'image': {'paletted': False, 'resampling_method': 'nearest'},
+                        'srs': {'preferred_src_proj': {k: list(v) for k, v in PREFERRED.items()}},
+                        'cache': {'base_dir': os.path.join(d, 'cache'), 'lock_dir': os.path.join(d, 'locks'),
+                                  'tile_lock_dir': os.path.join(d, 'tile_locks'), 'concurrent_tile_creators': 1}},
+            'services': {'wms': {'srs': list(self.service_srs), 'image_formats': ['image/png', 'image/jpeg']}, 'tms': {}},
+            'sources': sources, 'layers': layers}
+        if grids:
+            conf['grids'] = grids
+        if caches:
+            conf['caches'] = caches
+        return conf
+
+    # -- direct use of the source objects --------------------------------------------------------
+    def source(self, sid):
+        if sid not in self._objs:
+            c = self.sources[sid]
+            params = {'format': 'image/png'} if (c.kind == 'tile' or c.base != c.sid) else None
+            self._objs[sid] = self.pc.sources[c.base].source(params)
+        return self._objs[sid]
+
+    def call(self, sid, q):
+        """get_map of one real source -> (urls, outcome)"""
+        from mapproxy.layer import MapQuery, BlankImage
+        from mapproxy.srs import SRS
+        query = MapQuery(tuple(q['bbox']), tuple(q['size']), SRS(q['srs']), q['fmt'],
+                         dimensions={k: 'v_' + k for k in q['dims']})
+        del self.urls[:]
+        try:
+            self.source(sid).get_map(query)
+            out = 'ok'
+        except BlankImage:
+            out = 'blank'
+        except Exception as ex:
+            out = 'error:' + type(ex).__name__
+        return list(self.urls), out
+
+    # -- through the WSGI application ----------------------------------------------------------------
+    @property
+    def app(self):
+        if self._app is None:
+            import webtest
+            from mapproxy.wsgiapp import MapProxyApp
+            self._app = webtest.TestApp(MapProxyApp(self.pc.configured_services(), self.pc.base_config))
+        return self._app
+
+    def map_url(self, layers, q):
+        b = q['bbox']
+        url = ('/service?SERVICE=WMS&REQUEST=GetMap&VERSION=1.1.1&STYLES=&SRS=%s&FORMAT=image/%s&TRANSPARENT=true'
+               '&LAYERS=%s&BBOX=%s&WIDTH=%d&HEIGHT=%d' % (q['srs'], q['fmt'], ','.join(layers),
+                                                          ','.join(repr(x) for x in b), q['size'][0], q['size'][1]))
+        for k in q['dims']:
+            url += '&%s=v_%s' % (k.upper() if len(k) % 2 else k, k)
+        return url
+
+    def map_request(self, layers, q):
+        del self.urls[:]
+        resp = self.app.get(self.map_url(layers, q), expect_errors=True)
+        return list(self.urls), resp.status_int, resp
+
+
+# ---------------------------------------------------------------------------------------------
+# geometry oracle for reprojected queries (pyproj, independent of mapproxy.srs)
+# ---------------------------------------------------------------------------------------------
+DEG_M = 6378137 * 2 * math.pi / 360
+
+
+class Oracle(object):
+    def __init__(self):
+        self._tr = {}
+
+    def _t(self, a, b):
+        key = (SRS_CLASS[a], SRS_CLASS[b])
+        if key not in self._tr:
+            from pyproj import Transformer
+            self._tr[key] = Transformer.from_crs(CANON[key[0]], CANON[key[1]], always_xy=True)
+        return self._tr[key]
+
+    def point(self, xy, a, b):
+        if SRS_CLASS[a] == SRS_CLASS[b]:
+            return tuple(xy)
+        return self._t(a, b).transform(xy[0], xy[1])
+
+    def bbox_to(self, bbox, a, b, n=257):
+        """bounding box of the densified outline of bbox (SRS a) in SRS b"""
+        if SRS_CLASS[a] == SRS_CLASS[b]:
+            return tuple(bbox)
+        x0, y0, x1, y1 = bbox
+        xs, ys = [], []
+        for i in range(n + 1):
+            f = i / float(n)
+            for x, y in ((x0 + f * (x1 - x0), y0), (x0 + f * (x1 - x0), y1), (x0, y0 + f * (y1 - y0)), (x1, y0 + f * (y1 - y0))):
+                xs.append(x)
+                ys.append(y)
+        tx, ty = self._t(a, b).transform(xs, ys)
+        pts = [(x, y) for x, y in zip(tx, ty) if math.isfinite(x) and math.isfinite(y)]
+        if not pts:
+            raise tlc.MachineryError('oracle: bbox %r cannot be transformed from %s to %s' % (bbox, a, b))
+        return (min(p[0] for p in pts), min(p[1] for p in pts), max(p[0] for p in pts), max(p[1] for p in pts))
+
+    def cov_relation(self, cfg, srs, bbox, margin=3e-4):
+        """relation of a query bbox to the coverage of cfg, decided in the SRS of the coverage; 'fuzzy' near a boundary"""
+        if not cfg.cov:
+            return 'inside'
+        c = cfg.cov[1]
+        b = self.bbox_to(bbox, srs, cfg.cov[0])
+        mx, my = margin * (c[2] - c[0]), margin * (c[3] - c[1])
+        if b[0] >= c[2] + mx or b[2] <= c[0] - mx or b[1] >= c[3] + my or b[3] <= c[1] - my:
+            return 'disjoint'
+        if b[0] >= c[0] + mx and b[2] <= c[2] - mx and b[1] >= c[1] + my and b[3] <= c[3] - my:
+            return 'inside'
+        overlap = min(b[2], c[2]) - max(b[0], c[0]) > mx and min(b[3], c[3]) - max(b[1], c[1]) > my
+        outside = b[0] < c[0] - mx or b[2] > c[2] + mx or b[1] < c[1] - my or b[3] > c[3] + my
+        if overlap and outside:
+            return 'partial'
+        return 'fuzzy'
+
+    def res_relation(self, cfg, srs, bbox, size, margin=1e-4):
+        """grid.py ResolutionRange.contains, with a safety margin: 'in', 'out' or 'fuzzy'"""
+        if not (cfg.minres or cfg.maxres):
+            return 'in'
+        w, h = bbox[2] - bbox[0], bbox[3] - bbox[1]
+        if srs in LATLONG:
+            w, h = w * DEG_M, h * DEG_M
+        rs = (w / size[0], h / size[1])
+        out = any((cfg.minres and r > cfg.minres * (1 + margin)) or (cfg.maxres and r < cfg.maxres * (1 - margin)) for r in rs)
+        inn = all((not cfg.minres or r < cfg.minres * (1 - margin)) and (not cfg.maxres or r > cfg.maxres * (1 + margin))
+                  for r in rs)
+        return 'out' if out else ('in' if inn else 'fuzzy')
+
+    def in_extent(self, cfg, srs, bbox):
+        """is the bbox of an upstream request (in SRS srs) inside the coverage extent of cfg?  The extent in the
+        request SRS is the bounding box of the densely transformed outline, with a relative tolerance."""
+        if not cfg.cov:
+            return True
+        e = self.bbox_to(cfg.cov[1], cfg.cov[0], srs, n=1025)
+        tx, ty = 1e-6 * (e[2] - e[0]), 1e-6 * (e[3] - e[1])
+        return bbox[0] >= e[0] - tx and bbox[2] <= e[2] + tx and bbox[1] >= e[1] - ty and bbox[3] <= e[3] + ty
+
+    def realise(self, cfg, srs, covrel, resrel, size=(48, 40)):
+        """concrete numbers for a reprojected query with the declared relations to cfg"""
+        if cfg.cov:
+            c = cfg.cov[1]
+            cy = (c[1] + c[3]) / 2.0
+            cx = {'inside': (c[0] + c[2]) / 2.0, 'partial': c[2], 'disjoint': c[2] + 2.5 * (c[2] - c[0])}[covrel]
+            px, py = self.point((cx, cy), cfg.cov[0], srs)
+        else:
+            px, py = self.point((10.0, 50.5), 'EPSG:4326', srs)
+        if resrel == 'in' or not (cfg.minres or cfg.maxres):
+            res = 300.0
+        elif cfg.minres:
+            res = cfg.minres * 3.0
+        else:
+            res = cfg.maxres / 5.0
+            size = (size[0] * 3, size[1] * 3)
+        if srs in LATLONG:
+            res = res / DEG_M
+        bbox = (px - size[0] * res / 2.0, py - size[1] * res / 2.0, px + size[0] * res / 2.0, py + size[1] * res / 2.0)
+        got = (self.cov_relation(cfg, srs, bbox), self.res_relation(cfg, srs, bbox, size))
+        want = (covrel if cfg.cov else 'inside', resrel if (cfg.minres or cfg.maxres) else 'in')
+        if got != want:
+            raise tlc.MachineryError('oracle: realisation of (%s, %s, %s, %s) has relations %r' % (cfg.sid, srs, covrel, resrel, got))
+        return bbox, size
+
+
+# ---------------------------------------------------------------------------------------------
+# spec -> code: the table of cases
+# ---------------------------------------------------------------------------------------------
+def norm_planned(r):
+    """a request of the model's plan -> comparable dict"""
+    d = {'kind': r['kind'], 'host': r['host'], 'm': list(r['m'])}
+    if r['kind'] == 'tile':
+        d['tile'] = list(r['tile'])
+        return d
+    d.update(srs=r['srs'], fmt=r['fmt'], dims=sorted(r['dims']))
+    if r['exact'] and list(r['bbox']) != UNKNOWN4:
+        d.update(bbox=list(r['bbox']), size=list(r['size']))
+    return d
+
+
+def norm_observed(u, planned=None):
+    """a parsed upstream URL -> comparable dict (geometry only where the plan states it)"""
+    d = {'kind': u['kind'], 'host': u['host']}
+    if u['kind'] == 'tile':
+        d['m'] = [u['host']]
+        d['tile'] = list(u['tile'])
+        return d
+    d.update(m=list(u['layers']), srs=u['srs'], fmt=u['fmt'], dims=sorted(u['dims']))
+    if planned is not None and 'bbox' in planned:
+        b = u['bbox'] or []
+        d['bbox'] = [int(x) if float(x).is_integer() else x for x in b]
+        d['size'] = list(u['size'] or [])
+    return d
+
+
+def dim_values_ok(u):
+    return all(v == ['v_' + k] for k, v in u['dims'].items())
+
+
+def out_class(o):
+    return 'blank' if o.startswith('blank') else o
+
+
+def compare_case(results, urls, outs):
+    """results: the model's set of planned results; urls/outs: what the real code did (outs None: not observable).
+    Returns None if the observation is one of the planned results, else a text."""
+    parsed = [parse_url(u) for u in urls]
+    for u in parsed:
+        if not dim_values_ok(u):
+            return 'forwarded parameter with a foreign value: %r' % u['dims']
+    best = None
+    for r in results:
+        plan = [norm_planned(x) for x in r['sent']]
+        if len(plan) != len(parsed):
+            best = best or 'model plans %d upstream requests %s, real code sent %d: %s' % (
+                len(plan), plan[:3], len(parsed), urls[:3])
+            continue
+        obs = [norm_observed(u, p) for u, p in zip(parsed, plan)]
+        if obs != plan:
+            i = [k for k in range(len(plan)) if obs[k] != plan[k]][0]
+            keys = [k for k in plan[i] if plan[i].get(k) != obs[i].get(k)]
+            best = 'upstream request %d differs in %s: model %s, real %s' % (
+                i, keys, {k: plan[i].get(k) for k in keys}, {k: obs[i].get(k) for k in keys})
+            continue
+        if outs is not None and [out_class(o) for o in r['outs']] != list(outs):
+            best = 'outcome: model %s, real %s' % (r['outs'], outs)
+            continue
+        return None
+    return best or 'the model plans nothing for this case'
+
+
+def case_query(case, oracle, sources):
+    """the concrete query of a table case (numbers of a reprojected query are chosen here)"""
+    q = dict(case['q'])
+    q['dims'] = list(q['dims'])
+    if not q['exact']:
+        sid = case['s'] if case['kind'] == 'call' else case['l'][0][1:]
+        rel = q['rel'][sid]
+        bbox, size = oracle.realise(sources[sid], q['srs'], rel['cov'], rel['res'])
+        q['bbox'], q['size'] = list(bbox), list(size)
+    return q
+
+
+def describe_case(case):
+    q = case['q']
+    geo = ('bbox=%s size=%s' % (q['bbox'], q['size'])) if q['exact'] else 'reprojected(%s)' % json.dumps(
+        q['rel'].get(case['s'] or case['l'][0][1:]) if isinstance(q['rel'], dict) else q['rel'])
+    who = case['s'] if case['kind'] == 'call' else 'layers=' + ','.join(case['l'])
+    return '%s %s srs=%s %s fmt=%s dims=%s' % (case['kind'], who, q['srs'], geo, q['fmt'], sorted(q['dims']))
+
+
+def divergence_signature(case, why):
+    q = case['q']
+    what = why.split(':')[0]
+    m = re.search(r"differs in (\[[^\]]*\])", why)
+    if m:
+        what = 'upstream request differs in ' + m.group(1)
+    sig = {'kind': 'divergence', 'path': case['kind'], 'exact': bool(q['exact']),
+           'what': re.sub(r'\d+', 'N', what)[:70].strip()}
+    src = case['s'] if case['kind'] == 'call' else ''
+    sig['source'] = 'tile' if src.startswith('t') else ('wms' if src else 'layers')
+    return sig
+
+
+def check_oracle_extent(world, oracle, urls, members_of):
+    """reprojected requests: every sent bbox must lie in the coverage extent of every source it is sent for"""
+    bad = []
+    for url in urls:
+        u = parse_url(url)
+        if u['kind'] != 'map' or not u['bbox']:
+            continue
+        for sid in members_of(u):
+            cfg = world.sources[sid]
+            if cfg.cov and not oracle.in_extent(cfg, u['srs'], u['bbox']):
+                bad.append((sid, u['srs'], u['bbox']))
+    return bad
+
+
+def run_table(ctx, world, oracle, cases):
+    """every case of the TLC table on the real code"""
+    stats = {}
+    ndiff = 0
+    for case in cases:
+        q = case_query(case, oracle, world.sources)
+        results = case['plan']['results']
+        if case['kind'] == 'call':
+            urls, out = world.call(case['s'], q)
+            why = compare_case(results, urls, [out])
+        else:
+            urls, status, resp = world.map_request(case['l'], q)
+            why = compare_case(results, urls, None)
+            crash = any(o.startswith('error:') for r in results for o in r['outs'])
+            if why is None and status != (500 if crash else 200):
+                why = 'HTTP status %d: %s' % (status, resp.body[:80])
+        if why is None and not q['exact']:
+            bad = check_oracle_extent(world, oracle, urls, lambda u: u['layers'])
+            if bad:
+                why = 'bbox outside the coverage extent (oracle): %r' % (bad[0],)
+        ctx.count(('case', case['kind'], case['s'], tuple(case['l']), json.dumps(case['q'], sort_keys=True)))
+        ctx.cov['replayed_steps'] += 1
+        for r in results[:1]:
+            for o in r['outs']:
+                stats[o] = stats.get(o, 0) + 1
+            for x in r['sent']:
+                k = 'combined' if len(x['m']) > 1 else x['kind']
+                stats[k] = stats.get(k, 0) + 1
+        if why:
+            ndiff += 1
+            ctx.violation(divergence_signature(case, why), '%s -> %s' % (describe_case(case), why),
+                          {'case': {k: case[k] for k in ('kind', 's', 'l', 'q')}, 'plan': case['plan']})
+    ctx.cov['replayed_behaviours'] += len(cases)
+    return stats, ndiff
+
+
+# ---------------------------------------------------------------------------------------------
+# code -> spec: recording executions of the real application
+# ---------------------------------------------------------------------------------------------
+def is_int(x):
+    return float(x).is_integer() and abs(x) < 2 ** 30
+
+
+class Recorder(object):
+    """Hooks LayerRenderer.render, WMSSource.get_map, TiledSource.get_map (class level, restored by close) and the
+    world's HTTP recorder; produces one trace per WMS request on direct layers and one per get_map call made from
+    anywhere else (tile managers)."""
+
+    def __init__(self, world, oracle):
+        import mapproxy.service.wms as SW
+        import mapproxy.source.wms as W
+        import mapproxy.source.tile as T
+        from mapproxy.layer import BlankImage
+        self.world = world
+        self.oracle = oracle
+        self.traces = []
+        self.meta = []
+        self.skipped_fuzzy = 0
+        self.cur = None           # trace being recorded
+        self.unit = None          # get_map in progress: dict(sent=[...])
+        self.request = None       # the map request the driver announced
+        self.depth = 0
+        self._patched = []
+        rec = self
+
+        def wrap_get_map(cls):
+            orig = cls.get_map
+
+            def get_map(src, query):
+                if rec.depth:
+                    return orig(src, query)
+                rec.depth += 1
+                rec.begin(src, query)
+                out = 'ok'
+                try:
+                    return orig(src, query)
+                except BlankImage:
+                    out = 'blank'
+                    raise
+                except Exception as ex:
+                    out = 'error:' + type(ex).__name__
+                    raise
+                finally:
+                    rec.depth -= 1
+                    rec.end(out)
+            cls.get_map = get_map
+            self._patched.append((cls, 'get_map', orig))
+        wrap_get_map(W.WMSSource)
+        wrap_get_map(T.TiledSource)
+        orig_render = SW.LayerRenderer.render
+
+        def render(renderer, merger):
+            rec.on_render(renderer)
+            return orig_render(renderer, merger)
+        SW.LayerRenderer.render = render
+        self._patched.append((SW.LayerRenderer, 'render', orig_render))
+        world.hook = self.on_url
+
+    def close(self):
+        for cls, name, orig in self._patched:
+            setattr(cls, name, orig)
+        self.world.hook = None
+
+    # -- identification of live objects -----------------------------------------------------------
+    def ids_of(self, src):
+        from mapproxy.source.tile import TiledSource
+        while hasattr(src, '_layer') and not hasattr(src, 'client'):
+            src = src._layer
+        if isinstance(src, TiledSource):
+            host = urlsplit(src.client.url_template.template.replace('%', '')).netloc
+            return [host]
+        if not hasattr(src, 'client') or not hasattr(src.client, 'request_template'):
+            return None
+        names = list(src.client.request_template.params.layers)
+        fmt = src.image_opts.format
+        ext = fmt.ext if fmt else ''
+        out = []
+        for n in names:
+            c = self.world.sources.get(n)
+            if c is None:
+                raise tlc.MachineryError('recorder: unknown upstream layer %r' % n)
+            if len(names) == 1 and c.ofmt != ext:
+                n = '%s_%s' % (n, ext)
+                if n not in self.world.sources:
+                    raise tlc.MachineryError('recorder: no catalogue entry for instance %r' % n)
+            out.append(n)
+        return out
+
+    def query_dict(self, query, members, extra_members=()):
+        bbox = [float(x) for x in query.bbox]
+        fmt = str(query.format or '')
+        fmt = fmt.split('/', 1)[1] if '/' in fmt else fmt
+        q = {'srs': query.srs.srs_code, 'size': [int(query.size[0]), int(query.size[1])], 'fmt': fmt,
+             'dims': sorted({k.lower() for k in (query.dimensions or {})})}
+        return self.finish_query(q, bbox, list(members) + list(extra_members))
+
+    def finish_query(self, q, bbox, members):
+        cfgs = [self.world.sources[m] for m in members]
+        exact = (all(is_int(x) for x in bbox) and SRS_CLASS.get(q['srs']) == 'merc' and all(c.lattice for c in cfgs)
+                 and q['size'][0] > 0 and q['size'][1] > 0)
+        q['exact'] = exact
+        q['fbbox'] = list(bbox)
+        if exact:
+            q['bbox'] = [int(x) for x in bbox]
+            q['rel'] = []
+        else:
+            q['bbox'] = list(UNKNOWN4)
+            q['rel'] = {}
+            for c in cfgs:
+                rel = {'res': self.oracle.res_relation(c, q['srs'], bbox, q['size']),
+                       'cov': self.oracle.cov_relation(c, q['srs'], bbox)}
+                q['rel'][c.sid] = rel
+                if 'fuzzy' in rel.values():
+                    q['fuzzy'] = True
+        return q
+
+    # -- events ----------------------------------------------------------------------------------
+    def announce(self, layers, q, members):
+        """the driver is about to send a GetMap request for direct layers"""
+        qq = self.finish_query({'srs': q['srs'], 'size': list(q['size']), 'fmt': q['fmt'], 'dims': sorted(q['dims'])},
+                               q['bbox'], members)
+        self.request = {'l': list(layers), 'q': qq, 'members': list(members), 'rendered': False}
+        self.cur = [{'ev': 'map', 'l': list(layers), 'q': qq}]
+
+    def on_render(self, renderer):
+        if self.request is None or self.request['rendered']:
+            return
+        ids = []
+        for layer in renderer.layers:
+            i = self.ids_of(layer)
+            if i is None:
+                raise tlc.MachineryError('recorder: a layer of a direct request is not a WMS source: %r' % layer)
+            ids += i
+        self.request['rendered'] = True
+        self.cur.append({'ev': 'render', 'srcs': ids,
+                         'dims': sorted({k.lower() for k in (renderer.query.dimensions or {})})})
+
+    def begin(self, src, query):
+        ids = self.ids_of(src)
+        if self.request is not None and self.request['rendered']:
+            self.cur.append({'ev': 'getmap', 'm': ids, 'srs': query.srs.srs_code})
+            self.unit = {'q': self.request['q'], 'sent': [], 'own': False, 'ids': ids}
+        else:
+            if len(ids) != 1:
+                raise tlc.MachineryError('recorder: combined source outside a LayerRenderer: %r' % ids)
+            q = self.query_dict(query, ids)
+            self.cur = [{'ev': 'call', 's': ids[0], 'q': q}, {'ev': 'getmap', 'm': ids, 'srs': q['srs']}]
+            self.unit = {'q': q, 'sent': [], 'own': True, 'ids': ids}
+
+    def on_url(self, url):
+        if self.unit is not None:
+            self.unit['sent'].append(url)
+
+    def sent_record(self, url, q, ids):
+        u = parse_url(url)
+        if u['kind'] != 'tile' and u['layers'] == [self.world.sources[i].base for i in ids]:
+            u['layers'] = list(ids)      # the layer names of the URL, as instances of the catalogue
+        if u['kind'] == 'tile':
+            return {'kind': 'tile', 'm': [u['host']], 'host': u['host'], 'srs': '', 'fmt': '', 'exact': True,
+                    'bbox': list(UNKNOWN4), 'size': [0, 0], 'dims': [], 'tile': u['tile'], 'inext': True, 'url': url}
+        r = {'kind': u['kind'], 'm': u['layers'], 'host': u['host'], 'srs': u['srs'], 'fmt': u['fmt'], 'exact': q['exact'],
+             'dims': sorted(u['dims']), 'tile': [0, 0, 0], 'url': url}
+        if not dim_values_ok(u):
+            r['dims'] = sorted(k + '=' + ','.join(v) for k, v in u['dims'].items())
+        members = [self.world.sources[m] for m in u['layers'] if m in self.world.sources]
+        if u['bbox'] and len(u['bbox']) == 4:
+            r['inext'] = all(self.oracle.in_extent(c, u['srs'], u['bbox']) for c in members
+                             if SRS_CLASS.get(u['srs']) is not None)
+        else:
+            r['inext'] = False
+        if q['exact'] and SRS_CLASS.get(u['srs']) == SRS_CLASS.get(q['srs']):
+            ok = u['bbox'] and all(is_int(x) for x in u['bbox'])
+            r['bbox'] = [int(x) for x in u['bbox']] if ok else [-7, -7, -7, -7]
+            r['size'] = list(u['size'] or [0, 0])
+        else:
+            r['bbox'] = list(UNKNOWN4)
+            r['size'] = [0, 0]
+        return r
+
+    def end(self, out):
+        unit, self.unit = self.unit, None
+        self.cur.append({'ev': 'result', 'out': out, 'sent': [self.sent_record(u, unit['q'], unit['ids']) for u in unit['sent']]})
+        if unit['own']:
+            self.cur.append({'ev': 'done'})
+            self.flush('call')
+
+    def finish_request(self):
+        if self.request is not None:
+            if self.request['rendered']:
+                self.cur.append({'ev': 'done'})
+                self.flush('map')
+            self.request = None
+            self.cur = None
+
+    def flush(self, kind):
+        tr, self.cur = self.cur, None
+        if tr[0]['q'].get('fuzzy'):
+            self.skipped_fuzzy += 1
+            return
+        self.traces.append(tr)
+        self.meta.append(kind)
+
+
+def strip_trace(tr):
+    """the JSON handed to TLC: no floats, no helper fields"""
+    out = []
+    for e in tr:
+        e = dict(e)
+        if 'q' in e:
+            e['q'] = {k: v for k, v in e['q'].items() if k not in ('fbbox', 'fuzzy')}
+        if 'sent' in e:
+            e['sent'] = [{k: v for k, v in r.items() if k != 'url'} for r in e['sent']]
+        out.append(e)
+    return out
+
+
+def validate_traces(ctx, name, sources, groups, flags, traces, invariants):
+    d = ctx.sub('trace-' + name)
+    tf = os.path.join(d, 'batch.json')
+    with open(tf, 'w') as f:
+        json.dump([strip_trace(t) for t in traces], f)
+    consts = model_consts(sources, groups, flags, '=<<>>', '=<<>>')
+    mp, cp = tlc.write_mc(d, 'Trace_Source', 'MC_Trace', consts, spec='TraceSpec', post='TraceAccepted',
+                          invariants=list(invariants))
+    r = tlc.run(mp, cp, d, workers=1, coverage=False, env={'TRACE_FILE': tf}, timeout=1800)
+    pr = tlc.find_prints(r.out, 'matched')
+    matched = None
+    if pr:
+        mv = pr[-1][1]
+        matched = list(mv) if isinstance(mv, tuple) else [mv[k] for k in sorted(mv)]
+    return r, matched
+
+
+# ---------------------------------------------------------------------------------------------
+# the world of the trace direction and its random drivers
+# ---------------------------------------------------------------------------------------------
+def instance(c, ext):
+    """the object a cache builds from the configured source c (request format of the cache as image_opts.format)"""
+    return Cfg('%s_%s' % (c.sid, ext), kind=c.kind, host=c.host, srs=c.srs, fmts=c.fmts, ofmt=ext, cov=c.cov,
+               minres=c.minres, maxres=c.maxres, fwd=c.fwd, opq=c.opq, grid=c.grid, lattice=c.lattice, base=c.sid)
+
+
+CACHES = {
+    'c_t01': dict(source='t01', srs=M, bbox=(0, 0, 640, 640), res=(80, 40, 20), ts=(4, 4)),
+    'c_t01b': dict(source='t01', srs=M, bbox=(0, 0, 1280, 1280), res=(80, 40, 20), ts=(4, 4)),
+    'c_t01o': dict(source='t01', srs=M, bbox=(-79, -79, 561, 561), res=(80, 20), ts=(4, 4)),
+    'c_t02': dict(source='t02', srs=M, bbox=(0, 0, 640, 400), res=(80, 40, 20), ts=(4, 4), ul=True),
+    'c_t03': dict(source='t03', srs=M, bbox=(0, 0, 1280, 1280), res=(80, 40, 20), ts=(4, 4)),
+    'c_t04': dict(source='t04', srs=M, bbox=(0, 0, 640, 640), res=(80, 40, 20), ts=(4, 4)),
+    'c_t05': dict(source='t05', srs=A, bbox=(0, 0, 960, 320), res=(160, 80, 40), ts=(3, 2)),
+    'c_w02': dict(source='w02', srs=M, bbox=(0, 0, 640, 640), res=(80, 40, 20), ts=(4, 4), meta=(2, 2), buffer=1),
+    'c_w03': dict(source='w03', srs=M, bbox=(0, 0, 640, 640), res=(80, 40, 20, 10), ts=(4, 4)),
+    'c_k11': dict(source='k11', srs=A, bbox=(0, 0, 640, 320), res=(160, 80, 40, 20, 10), ts=(4, 4), meta=(2, 1)),
+    'c_w07': dict(source='w07', srs=M, bbox=(0, 0, 640, 640), res=(80, 40), ts=(8, 8)),
+    # reprojected: cache grid in another SRS than the source supports
+    'c_g01': dict(source='g01', srs='EPSG:4326', bbox=(0.0, 40.0, 20.0, 60.0), res=(0.02, 0.01, 0.005, 0.001), ts=(16, 16),
+                  meta=(2, 2)),
+    'c_g03': dict(source='g03', srs=M, bbox=(600000.0, 5900000.0, 1600000.0, 7300000.0), res=(2000.0, 500.0), ts=(16, 16)),
+    'c_g05': dict(source='g05', srs='EPSG:25832', bbox=(200000.0, 5200000.0, 900000.0, 6100000.0), res=(4000.0, 1000.0, 250.0),
+                  ts=(16, 16)),
+}
+
+
+def trace_world(ctx, name='tworld'):
+    base = lattice_sources() + geo_sources()
+    by = {c.sid: c for c in base}
+    extra = []
+    for cname, cc in sorted(CACHES.items()):
+        c = by[cc['source']]
+        if c.kind == 'wms' and c.ofmt != 'png' and not any(x.sid == c.sid + '_png' for x in extra):
+            if not c.ofmt:
+                extra.append(instance(c, 'png'))
+    sources = base + extra
+    groups = with_singletons(base, GROUPS)
+    world = World(ctx.sub(name), sources, groups, caches=CACHES)
+    return world, sources, groups
+
+
+def random_lattice_query(rng):
+    k = rng.random()
+    rs = [5, 10, 19, 20, 21, 39, 40, 41, 79, 80, 81, 160]
+    rx = rng.choice(rs)
+    ry = rx if k < 0.8 else rng.choice(rs)
+    w, h = rng.randint(2, 9), rng.randint(2, 9)
+    x0 = rng.choice([rng.randint(-150, 620), rng.choice([0, 90, 99, 100, 101, 129, 130, 370, 499, 500, 501])])
+    y0 = rng.choice([rng.randint(-150, 620), rng.choice([0, 59, 60, 61, 89, 90, 250, 419, 420])])
+    if rng.random() < 0.25:
+        x0 -= w * rx // 2
+        y0 -= h * ry // 2
+    dims = [p for p in ('time', 'elevation', 'dim_x', 'foo', 'bar') if rng.random() < 0.35]
+    return {'srs': rng.choice([M, M, A]), 'bbox': [x0, y0, x0 + w * rx, y0 + h * ry], 'size': [w, h],
+            'fmt': rng.choice(['png', 'png', 'jpeg']), 'dims': dims}
+
+
+def random_geo_query(rng, oracle):
+    srs = rng.choice(['EPSG:4326', M, A, 'EPSG:25832', 'EPSG:31467'])
+    lon = rng.choice([rng.uniform(2.0, 20.0), rng.choice([6.0, 14.0, 10.0]) + rng.uniform(-0.6, 0.6)])
+    lat = rng.choice([rng.uniform(44.0, 57.0), rng.choice([47.0, 54.0, 50.0]) + rng.uniform(-0.6, 0.6)])
+    res = math.exp(rng.uniform(math.log(15.0), math.log(6000.0)))
+    w, h = rng.randint(8, 40), rng.randint(8, 40)
+    px, py = oracle.point((lon, lat), 'EPSG:4326', srs)
+    if srs in LATLONG:
+        res = res / DEG_M
+    dims = [p for p in ('time', 'elevation', 'dim_x', 'foo') if rng.random() < 0.3]
+    return {'srs': srs, 'bbox': [px - w * res / 2, py - h * res / 2, px + w * res / 2, py + h * res / 2], 'size': [w, h],
+            'fmt': rng.choice(['png', 'jpeg']), 'dims': dims}
+
+
+def send_map(world, rec, layers, q, direct):
+    """one WMS GetMap through the application, recorded"""
+    if direct:
+        members = [m for g in layers for m in world.groups[g]]
+        rec.announce(layers, q, members)
+    try:
+        urls, status, resp = world.map_request(layers, q)
+    finally:
+        rec.finish_request()
+    return status
+
+
+def drive(ctx, world, rec, oracle, n_map, n_cached, n_tms, n_geo):
+    rng = ctx.rng
+    direct = sorted(g for g in world.groups if not g.startswith('sg'))
+    geo_direct = sorted(g for g in world.groups if g.startswith('sg'))
+    lat_caches = sorted(c for c in world.caches if not c.startswith('c_g'))
+    geo_caches = sorted(c for c in world.caches if c.startswith('c_g'))
+    reqs = []
+
+    def log(kind, before, **kw):
+        for i in range(before, len(rec.traces)):
+            reqs.append(dict(kw, kind=kind))
+    for _ in range(n_map):
+        k = rng.choice([1, 1, 2, 2, 3])
+        layers = rng.sample(direct, k)
+        q = random_lattice_query(rng)
+        b = len(rec.traces)
+        send_map(world, rec, layers, q, True)
+        log('map', b, layers=layers, q=q)
+    for _ in range(n_cached):
+        layers = [rng.choice(lat_caches)]
+        q = random_lattice_query(rng)
+        if rng.random() < 0.5:
+            # aligned with the cache grid: exactly the meta tiles are requested upstream
+            cc = world.caches[layers[0]]
+            r = rng.choice(cc['res'])
+            q['bbox'] = [cc['bbox'][0] + rng.randint(-1, 3) * r * cc['ts'][0], cc['bbox'][1] + rng.randint(-1, 3) * r * cc['ts'][1], 0, 0]
+            q['size'] = [cc['ts'][0] * rng.randint(1, 2), cc['ts'][1] * rng.randint(1, 2)]
+            q['bbox'][2] = q['bbox'][0] + q['size'][0] * r
+            q['bbox'][3] = q['bbox'][1] + q['size'][1] * r
+        q['srs'] = cc_srs = world.caches[layers[0]]['srs'] if rng.random() < 0.7 else q['srs']
+        del cc_srs
+        b = len(rec.traces)
+        send_map(world, rec, layers, q, False)
+        log('cached-map', b, layers=layers, q=q)
+    for _ in range(n_tms):
+        c = rng.choice(lat_caches + (geo_caches if rng.random() < 0.3 else []))
+        cc = world.caches[c]
+        z = rng.randrange(len(cc['res']))
+        W, H = cc['bbox'][2] - cc['bbox'][0], cc['bbox'][3] - cc['bbox'][1]
+        nx = int(-(-W // (cc['res'][z] * cc['ts'][0])))
+        ny = int(-(-H // (cc['res'][z] * cc['ts'][1])))
+        x, y = rng.randint(0, max(0, nx - 1)), rng.randint(0, max(0, ny - 1))
+        path = '/tms/1.0.0/%s/%s/%d/%d/%d.png' % (c, cc['srs'].replace(':', ''), z, x, y)
+        b = len(rec.traces)
+        world.app.get(path, expect_errors=True)
+        log('tms', b, path=path)
+    for i in range(n_geo):
+        q = random_geo_query(rng, oracle)
+        b = len(rec.traces)
+        if i % 4 == 3:
+            layers = [rng.choice(geo_caches)]
+            send_map(world, rec, layers, q, False)
+            log('cached-map', b, layers=layers, q=q)
+        else:
+            layers = rng.sample(geo_direct, rng.choice([1, 1, 2]))
+            send_map(world, rec, layers, q, True)
+            log('map', b, layers=layers, q=q)
+    return reqs
+
+
+# ---------------------------------------------------------------------------------------------
+# violations of the property: signatures, confrontation of model counterexamples with the real code
+# ---------------------------------------------------------------------------------------------
+EXPECTED_WITH = {   # invariant that the as-is variant of a decision is known to break
+    'CombineChecksRes': 'NoContactOutOfRange',
+    'BestSrsFromList': 'SrsSupported',
+    'CombineChecksCodes': 'SrsSupported',
+}
+
+
+def sent_of_state(st):
+    return [tla.jsonable(dict(r)) if isinstance(r, dict) else r for r in st.get('sent', ())]
+
+
+def violation_signature(inv, sent, srcmap):
+    """which kind of request breaks `inv`: a stable description of the failing class"""
+    sig = {'kind': 'invariant', 'invariant': inv}
+    combined = [r for r in sent if len(r['m']) > 1]
+    if inv == 'NoContactOutOfRange' and combined:
+        sig.update(path='combined-sources', cause='resolution range of a combined member is ignored')
+    elif inv == 'SrsSupported' and any(r['kind'] == 'map' and any(
+            srcmap[m].srs and r['srs'] not in srcmap[m].srs for m in r['m'] if m in srcmap) for r in combined):
+        sig.update(path='combined-sources', cause='supported_srs lists compared by SRS equality, not by code')
+    elif inv == 'SrsSupported':
+        bad = [r for r in sent if r['kind'] == 'map' and any(srcmap[m].srs and r['srs'] not in srcmap[m].srs
+                                                            for m in r['m'] if m in srcmap)]
+        alias = bad and all(any(SRS_CLASS.get(r['srs']) == SRS_CLASS.get(x) for x in srcmap[m].srs)
+                            for r in bad for m in r['m'] if m in srcmap)
+        if alias:
+            sig.update(path='single-source', cause='alias code of a preferred_src_proj rule is sent instead of the supported code')
+        else:
+            sig.update(path='single-source', source=','.join(sorted({m for r in bad for m in r['m']})))
+    else:
+        sig.update(path='combined-sources' if combined else 'single-source',
+                   source=','.join(sorted({m for r in sent for m in r['m']}))[:60])
+    return sig
+
+
+def case_of_state(st):
+    c = st['case']
+    q = tla.jsonable(c['q'])
+    q['dims'] = sorted(q['dims'])
+    return {'kind': str(c['kind']), 's': str(c['s']), 'l': [str(x) for x in c['l']], 'q': q}
+
+
+def confront(ctx, world, oracle, r, srcmap):
+    """TLC found a state of the model (of the code as it is) that violates a property invariant: the violation
+    counts if the real code, given the same case, sends what the model says it sends."""
+    st = r.trace[-1][1]
+    case = case_of_state(st)
+    planned = {'sent': [tla.jsonable(x) for x in st['sent']], 'outs': [str(o) for o in st['outs']]}
+    q = case_query(case, oracle, world.sources)
+    if case['kind'] == 'call':
+        urls, out = world.call(case['s'], q)
+    else:
+        urls, status, resp = world.map_request(case['l'], q)
+    parsed = [parse_url(u) for u in urls]
+    plan = [norm_planned(x) for x in planned['sent']]
+    same = len(plan) <= len(parsed) and all(norm_observed(u, p) == p for u, p in zip(parsed, plan))
+    return case, planned, urls, same
+
+
+def attack(ctx, world, oracle, sources, groups, flag, srcmap, report=True):
+    """model of the code as it is for one decision (the other two repaired): does TLC find a violation, and does the
+    real code follow the counterexample?  Returns True if the real code behaves like the repaired variant."""
+    flags = {f: True for f in FLAGS}
+    flags[flag] = False
+    flags['MissingSrsListCrashes'] = probe_crash(world)
+    call, mp = attack_universe(flag, sources, groups)
+    r = run_model(ctx, 'asis-' + flag, model_consts(sources, groups, flags, call, mp), PROPERTY_INVARIANTS, workers=4,
+                  timeout=600)
+    if r.ok:
+        raise tlc.MachineryError('the as-is model of %s satisfies the property: the catalogue does not exercise it' % flag)
+    if r.violated != EXPECTED_WITH[flag] or not r.trace:
+        raise tlc.MachineryError('as-is model of %s: unexpected result %r\n%s' % (flag, r, r.out[-1500:]))
+    case, planned, urls, same = confront(ctx, world, oracle, r, srcmap)
+    ctx.cov['replayed_behaviours'] += 1
+    ctx.cov['replayed_steps'] += len(r.trace)
+    if same:
+        sig = violation_signature(r.violated, planned['sent'], srcmap)
+        if report:
+            ctx.violation(sig, 'TLC counterexample to %s reproduced on the real code: %s -> upstream %s' % (
+                r.violated, describe_case(case), urls[:3]), {'case': case, 'expect_sent': planned['sent']})
+        ctx.log('as-is %s: counterexample to %s reproduced on the real code' % (flag, r.violated))
+        return False
+    ctx.log('as-is %s: the real code does not follow the counterexample (%s): repaired variant' % (flag, urls[:2]))
+    return True
+
+
+def probe_crash(world):
+    """does combining a source without supported_srs with one that has a list raise (HTTP 500, nothing sent)?"""
+    q = {'srs': M, 'bbox': [0, 0, 320, 320], 'size': [8, 8], 'fmt': 'png', 'dims': []}
+    urls, status, resp = world.map_request(['p19'], q)
+    if status == 500 and not urls:
+        return True
+    if status == 200 and len(urls) == 2:
+        return False
+    raise tlc.MachineryError('probe of p19: status %s, upstream %s' % (status, urls))
+
+
+def real_variant(ctx, world, oracle, sources, groups, srcmap, report=True):
+    real = {}
+    for flag in FLAGS:
+        real[flag] = attack(ctx, world, oracle, sources, groups, flag, srcmap, report)
+    real['MissingSrsListCrashes'] = probe_crash(world)
+    ctx.log('model variant the real code conforms to: %s' % real)
+    return real
+
+
+def attack_universe(flag, sources, groups):
+    geo = [c.sid for c in sources if not c.lattice]
+    defs = 'LET GeoIds == %s\n    %s\n    %s\nIN ' % (tla_set(geo), XQ, IQ)
+    if flag == 'BestSrsFromList':
+        call = ('<<{<<s, IQ(srs, "inside", "in", "png", {})>> : s \\in %s, srs \\in {"EPSG:4326", "EPSG:31467", "%s"}}>>'
+                % (tla_set(geo), M))
+        return '=' + defs + call, '=<<>>'
+    seqs = [(n,) for n in sorted(groups) if n.startswith('p')]
+    mp = '<<{<<l, XQ(g, "%s", "png", {})>> : l \\in %s, g \\in %s}>>' % (M, tla_set(seqs), tla_set(map_geos()[:4]))
+    return '=<<>>', '=' + defs + mp
+
+
+# ---------------------------------------------------------------------------------------------
+# the check
+# ---------------------------------------------------------------------------------------------
+def load_table(path):
+    with open(path) as f:
+        parts = json.load(f)['cases']
+    cases = [c for part in parts for c in part]
+    cases.sort(key=lambda c: json.dumps([c['kind'], c['s'], c['l'], c['q']], sort_keys=True))
+    return cases
+
+
+def vacuity(stats, need):
+    for k in need:
+        if not stats.get(k):
+            raise tlc.MachineryError('vacuous table: no case of class %r (%s)' % (k, stats))
+
+
+def judge_traces(ctx, sources, groups, flags, traces, reqs, srcmap, expected):
+    """validate the recorded executions; invariant violations and rejected traces are violations on the real code"""
+    invariants = PROPERTY_INVARIANTS + ['OracleInExtent']
+    guards = ['TypeOK', 'ExactIsExact']
+    r = matched = None
+    for attempt in range(len(invariants) + 1):
+        r, matched = validate_traces(ctx, 'batch%d' % attempt, sources, groups, flags, traces, invariants + guards)
+        if r.violated in guards:
+            raise tlc.MachineryError('trace validation: the recorder mislabelled an execution (%s): %s' % (
+                r.violated, json.dumps(reqs[r.trace[-1][1].get('tid', 1) - 1])[:300] if r.trace else ''))
+        if r.violated and r.violated in invariants and r.trace:
+            st = r.trace[-1][1]
+            tid = st.get('tid', 1)
+            sent = [tla.jsonable(x) for x in st['sent']]
+            if r.violated == 'OracleInExtent':
+                sig = {'kind': 'invariant', 'invariant': 'OracleInExtent', 'path': 'reprojected',
+                       'source': ','.join(sorted({m for x in sent for m in x['m']}))[:60]}
+            else:
+                sig = violation_signature(r.violated, sent, srcmap)
+            ctx.violation(sig, 'recorded execution (a behaviour of the model of the code) violates %s: request %s -> upstream %s' % (
+                r.violated, json.dumps(reqs[tid - 1])[:300],
+                [e.get('url') for ev in traces[tid - 1] if ev['ev'] == 'result' for e in ev['sent']][:3]),
+                {'request': reqs[tid - 1]})
+            invariants = [i for i in invariants if i != r.violated]
+            continue
+        break
+    if matched is None:
+        raise tlc.MachineryError('trace validation: no verdict from TLC: %r\n%s' % (r, r.out[-2000:]))
+    if r.error and not r.violated:
+        raise tlc.MachineryError('trace validation: %r\n%s' % (r, r.out[-2000:]))
+    nrej = 0
+    for i, m in enumerate(matched):
+        if m < len(traces[i]):
+            nrej += 1
+            e = traces[i][m]
+            sig = {'kind': 'trace-rejected', 'event': e['ev'], 'request': reqs[i]['kind'],
+                   'source': ','.join(traces[i][m - 1].get('m', [])) if m and traces[i][m - 1]['ev'] == 'getmap' else
+                   ','.join(reqs[i].get('layers', []))[:60]}
+            ctx.violation(sig, 'recorded execution is not a behaviour of the model at event %d %s (request %s)' % (
+                m, json.dumps({k: v for k, v in e.items()})[:400], json.dumps(reqs[i])[:300]), {'request': reqs[i]})
+    ctx.cov['traces_validated_against_impl'] += len(traces)
+    ctx.cov['states'] += r.distinct
+    ctx.cov['transitions'] += r.generated
+    return nrej
+
+
+def record_and_judge(ctx, flags, srcmap_extra=None):
+    thorough = ctx.tier == 'thorough'
+    oracle = Oracle()
+    world, sources, groups = trace_world(ctx)
+    rec = Recorder(world, oracle)
+    try:
+        n = (1200, 500, 800, 600) if thorough else (260, 120, 200, 160)
+        reqs = drive(ctx, world, rec, oracle, *n)
+    finally:
+        rec.close()
+        world.close()
+    traces = rec.traces
+    if len(traces) < 100:
+        raise tlc.MachineryError('only %d executions recorded' % len(traces))
+    kinds = {}
+    for t in traces:
+        for e in t:
+            if e['ev'] == 'result':
+                k = e['out'] + ('/combined' if any(len(x['m']) > 1 for x in e['sent']) else '') + (
+                    '/reprojected' if not t[0]['q']['exact'] else '')
+                kinds[k] = kinds.get(k, 0) + 1
+    for must in ('ok', 'blank', 'ok/combined', 'ok/reprojected', 'blank/reprojected'):
+        if not kinds.get(must):
+            raise tlc.MachineryError('recorded executions do not cover %r: %s' % (must, kinds))
+    srcmap = {c.sid: c for c in sources}
+    nrej = judge_traces(ctx, sources, groups, flags, traces, reqs, srcmap, None)
+    for t, rq in zip(traces, reqs):
+        ctx.count(('trace', json.dumps(rq, sort_keys=True)))
+    ctx.sample({'kind': 'execution recorded from the WSGI application, validated by Trace_Source',
+                'request': reqs[0], 'events': strip_trace(traces[0])[:6]})
+    ctx.log('traces: %d recorded executions validated (%d rejected, %d skipped near a geometric boundary); outcomes %s' % (
+        len(traces), nrej, rec.skipped_fuzzy, dict(sorted(kinds.items()))))
+
+
+def run(ctx):
+    thorough = ctx.tier == 'thorough'
+    tlc.sany(SPEC)
+    sources = lattice_sources() + geo_sources()
+    srcmap = {c.sid: c for c in sources}
+    groups = with_singletons(sources, GROUPS)
+    oracle = Oracle()
+    world = World(ctx.sub('world'), sources, groups)
+    try:
+        # (M) the three decisions known to differ from the property: model as it is, TLC's counterexample on the real code
+        real = real_variant(ctx, world, oracle, sources, groups, srcmap)
+        # (M) the model of the real code, exhaustively, with every invariant it is not already known to break
+        call, mp = universe(ctx.tier, sources, groups)
+        broken = {EXPECTED_WITH[f] for f in FLAGS if not real[f]}
+        table = os.path.join(ctx.sub('table'), 'cases.json')
+        r = run_model(ctx, 'real', model_consts(sources, groups, real, call, mp),
+                      MODEL_INVARIANTS + [i for i in PROPERTY_INVARIANTS if i not in broken], export=table,
+                      timeout=3000 if thorough else 900)
+        if r.violated in PROPERTY_INVARIANTS and r.trace:
+            case, planned, urls, same = confront(ctx, world, oracle, r, srcmap)
+            if not same:
+                raise tlc.MachineryError('the model violates %s at %s but the real code does not follow (%s): the model is '
+                                         'not faithful' % (r.violated, describe_case(case), urls[:2]))
+            ctx.violation(violation_signature(r.violated, planned['sent'], srcmap),
+                          'TLC counterexample to %s reproduced on the real code: %s -> upstream %s' % (
+                              r.violated, describe_case(case), urls[:3]), {'case': case, 'expect_sent': planned['sent']})
+        elif not r.ok:
+            raise tlc.MachineryError('Source.tla: %r\n%s' % (r, r.out[-2000:]))
+        else:
+            ctx.add_tlc('Source/real-code-variant', r)
+        if broken:
+            # everything else: the repaired model satisfies the whole property
+            r2 = run_model(ctx, 'repaired', model_consts(sources, groups, dict(real, **{f: True for f in FLAGS}), call, mp),
+                           MODEL_INVARIANTS + PROPERTY_INVARIANTS, timeout=3000 if thorough else 900)
+            if not r2.ok:
+                raise tlc.MachineryError('Source.tla with the three repairs: %r\n%s' % (r2, r2.out[-2000:]))
+            ctx.add_tlc('Source/repaired-variant', r2)
+        # vacuity guard: action coverage on a small universe
+        cc, cm = attack_universe('CombineChecksRes', sources, groups)
+        cc2, _ = attack_universe('BestSrsFromList', sources, groups)
+        small_call = ('=LET GeoIds == %s\n    %s\n    %s\nIN <<{<<s, XQ(g, "%s", "png", {"time"})>> : s \\in %s, g \\in %s}>>' % (
+            tla_set([c.sid for c in sources if not c.lattice]), XQ, IQ, M,
+            tla_set([c.sid for c in sources if c.lattice]), tla_set(small_geos() + tile_geos('quick')[::9])))
+        rc = run_model(ctx, 'coverage', model_consts(sources, groups, real, small_call, cm), ['TypeOK'], coverage=True,
+                       workers=4)
+        if not rc.ok:
+            raise tlc.MachineryError('coverage run: %r\n%s' % (rc, rc.out[-1500:]))
+        for a in ACTIONS:
+            if rc.coverage.get(a, (0, 0))[0] == 0:
+                raise tlc.MachineryError('vacuous model: action %s has coverage %r' % (a, rc.coverage.get(a)))
+        ctx.add_tlc('Source/action-coverage', rc)
+        del cc, cc2
+        # (R) spec -> code
+        if os.path.exists(table):
+            cases = load_table(table)
+            stats, ndiff = run_table(ctx, world, oracle, cases)
+            vacuity(stats, ['ok', 'blank:res', 'blank:cov', 'blank:size', 'error:InvalidSourceQuery', 'error:NoTiles',
+                            'error:TypeError', 'map', 'tile', 'combined'] + (
+                                ['error:AttributeError'] if real['MissingSrsListCrashes'] else []))
+            ctx.log('table: %d cases of the TLC table executed on the real code (%d differ); classes %s' % (
+                len(cases), ndiff, dict(sorted(stats.items()))))
+            k = len(cases) // 3
+            ctx.sample({'kind': 'case of the TLC table executed on the real source', 'case': describe_case(cases[k]),
+                        'planned': cases[k]['plan']['results'][:1]})
+    finally:
+        world.close()
+    # (T) code -> spec
+    record_and_judge(ctx, real)
+    ctx.assumptions += [
+        'GetMap and tile requests only: GetFeatureInfo / GetLegendGraphic requests to the upstream are outside the anchored '
+        'mechanism (WMSInfoClient keeps the full bbox and the client SRS code of an equal SRS)',
+        'exact geometry on integer bboxes in EPSG:3857 / EPSG:900913 with bbox coverages in the same SRS; for requests that '
+        'need a reprojection the relation of the bbox to coverage and resolution range and "sent bbox inside the extent" are '
+        'facts of a pyproj oracle (extent = bounding box of the densely transformed coverage outline, relative tolerance '
+        '1e-6); requests within 3e-4 of a coverage edge or 1e-4 of a resolution limit are not recorded',
+        'coverages are bounding boxes (the extent of a polygon coverage is its bounding box); resolution limits are given '
+        'as min_res/max_res (not as scales); a request exactly at max_res may be answered either way (documented exclusive, '
+        'implemented inclusive)',
+        'one WMS layer per source group, transparent sources (no opaque-layer pruning), concurrent_layer_renderer 1, no '
+        'authorisation, no srs extents, no error handlers, HTTP GET; tile grids with the default stretch/shrink factors and '
+        'no threshold_res',
+    ]
+    return ctx.finish('model_checking',
+                      'TLC: Source.tla exhaustively for the catalogue of source configurations x queries; distinct = distinct '
+                      '(source or layer list, query) cases of the TLC table executed on the real code + distinct recorded '
+                      'requests validated by the trace spec')
+
+
+def replay(ctx, data):
+    case = data.get('case') or {}
+    oracle = Oracle()
+    if 'case' in case:
+        sources = lattice_sources() + geo_sources()
+        groups = with_singletons(sources, GROUPS)
+        world = World(ctx.sub('world'), sources, groups)
+        try:
+            c = case['case']
+            q = case_query(c, oracle, world.sources)
+            if c['kind'] == 'call':
+                urls, out = world.call(c['s'], q)
+            else:
+                urls, status, resp = world.map_request(c['l'], q)
+                out = status
+            print('replay: %s' % describe_case(c))
+            for u in urls:
+                print('   upstream:', u)
+            print('   outcome:', out)
+            if 'plan' in case:
+                why = compare_case(case['plan']['results'], urls, [out] if c['kind'] == 'call' else None)
+                print('replay: %s' % (why or 'as planned by the model'))
+                return 1 if why else 0
+            plan = [norm_planned(x) for x in case.get('expect_sent', [])]
+            parsed = [parse_url(u) for u in urls]
+            same = len(plan) <= len(parsed) and all(norm_observed(u, p) == p for u, p in zip(parsed, plan))
+            print('replay: the real code %s the violating requests of the counterexample' % ('sends' if same else 'does not send'))
+            return 1 if same else 0
+        finally:
+            world.close()
+    if 'request' in case:
+        rq = case['request']
+        world, sources, groups = trace_world(ctx, 'replay')
+        rec = Recorder(world, oracle)
+        try:
+            if rq['kind'] == 'tms':
+                world.app.get(rq['path'], expect_errors=True)
+            else:
+                send_map(world, rec, rq['layers'], rq['q'], rq['kind'] == 'map')
+        finally:
+            rec.close()
+            world.close()
+        for t in rec.traces:
+            for e in strip_trace(t):
+                print('  ', json.dumps(e)[:300])
+        if not rec.traces:
+            print('replay: nothing recorded')
+            return 0
+        base = lattice_sources() + geo_sources()
+        w2 = World(ctx.sub('world'), base, with_singletons(base, GROUPS))
+        try:
+            real = real_variant(ctx, w2, oracle, base, with_singletons(base, GROUPS), {c.sid: c for c in base}, report=False)
+        finally:
+            w2.close()
+        r, matched = validate_traces(ctx, 'replay', sources, groups, real, rec.traces, PROPERTY_INVARIANTS + ['OracleInExtent'])
+        if matched is None:
+            raise tlc.MachineryError('replay: no verdict from TLC\n' + r.out[-1500:])
+        if r.violated and r.violated != 'postcondition':
+            print('replay: the recorded execution violates %s' % r.violated)
+            return 1
+        if any(m < len(t) for m, t in zip(matched, rec.traces)):
+            print('replay: the recorded execution is not a behaviour of the model')
+            return 1
+        print('replay: accepted, all invariants hold')
+        return 0
+    print('replay: nothing to replay')
+    return 0
